@@ -25,7 +25,7 @@ from fst import FST  # implementation under test
 
 warnings.filterwarnings('ignore', category=SyntaxWarning)  # replacement texts contain deliberately odd literals
 
-MODES = {'exec': 'Module', 'eval': 'Expression', 'single': 'Interactive'}
+MODES = {'exec': 'Module', 'eval': 'Expression'}
 
 
 # ----------------------------------------------------------------------------------------------------------------------
@@ -594,7 +594,8 @@ def plan_raw_put(v: View, rng: random.Random):
         rk, repl = 'invalid', rng.choice(INVALID)
     if not repl.strip():
         rk, repl = 'expr', 'x'
-    return {'call': 'raw_put', 'rect': list(rect), 'repl': repl, 'gen': 'rawnode/' + rk + ('/to' if to else ''),
+    return {'call': 'raw_put', 'self': 'expr', 'rect': list(rect), 'repl': repl,
+            'gen': 'rawnode/' + rk + ('/to' if to else ''),
             'path': [[f, -1 if i is None else i] for f, i in _path_of(v.tree, n)],
             'to': [[f, -1 if i is None else i] for f, i in _path_of(v.tree, to)] if to is not None else [],
             'hasTo': to is not None, 'parsFalse': pars_false}
@@ -647,7 +648,8 @@ def execute(root, plan):
 
 def make_event(rec: RawRecorder, plan, pre_src, mode, post, exc):
     c = plan['call']
-    ev = {'call': c, 'gen': plan.get('gen', c), 'outcome': 'ok' if exc is None else 'raise',
+    ev = {'call': c, 'self': plan.get('self', 'root'), 'gen': plan.get('gen', c),
+          'outcome': 'ok' if exc is None else 'raise',
           'exc': '' if exc is None else type(exc).__name__,
           'msg': '' if exc is None else ascii(str(exc))[1:-1][:80], 'post': post}
     if c in ('put_src', 'raw_put', 'put_none'):
@@ -707,11 +709,13 @@ def run_history(rec: RawRecorder, tid: int, seed: int, src: str, nsteps: int, pr
                     else:
                         n = rng.choice(v.stmts + v.exprs[:20])
                         plan = {'call': 'reparse', 'gen': 'reparse/node',
+                                'self': 'stmt' if isinstance(n, (ast.stmt, ast.ExceptHandler)) else 'expr',
                                 'path': [[f, -1 if i is None else i] for f, i in _path_of(v.tree, n)]}
                 if plan and plan['call'] == 'put_src' and rng.random() < 0.3 and v.exprs:
                     # put_src may be called on any node of the tree: `self` must not matter
                     n = rng.choice(v.exprs + v.stmts)
                     plan['via'] = [[f, -1 if i is None else i] for f, i in _path_of(v.tree, n)]
+                    plan['self'] = 'stmt' if isinstance(n, (ast.stmt, ast.ExceptHandler, ast.match_case)) else 'expr'
                 if plan and plan['call'] in ('put_src', 'put_none') and profile != 'clean' and rng.random() < 0.15:
                     plan['quad'] = requad(v, rng, plan['rect'])
             if plan is None:
@@ -742,8 +746,6 @@ MODE_SOURCES = {
     'eval': ['a + b * c', 'f(x, y=1, *z)', '[i for i in j if k]', '(a,\n b,\n c)', 'lambda x: (x, 1)', 'a if b else c',
              '{k: v, **d}', 'x[1:2, ::3]', 'not a and (b or c)', '(yield)', 'a.b.c(d)[e]', '"s" "t"', '-x ** 2',
              '[\n    1,  # one\n    2,\n]', 'a < b <= c', '(x := 5)'],
-    'single': ['x = 1', 'if a: b', 'x = 1; y = 2', 'for i in j: pass', 'del a, b', 'import m', 'f(x)', 'a: int = 1',
-               'while a: b', 'with a as b: c', 'x += 1', 'assert a, b', 'class C: pass', 'def f(): return 1'],
 }
 
 
